@@ -103,6 +103,16 @@ func (in *instance) configureAs(which int, canonical bool) {
 	}
 	if in.calc != nil {
 		switch {
+		case which >= 500 && which < 510:
+			// the caller empties the default variables, or removes one of them
+			if which < 505 {
+				in.calc.DefaultVariables().Clear()
+			} else {
+				in.calc.DefaultVariables().RemoveByName([]string{"a", "B", "c", "zz", "x1"}[which-505])
+			}
+			// an expression set before this edit is not evaluated again without being set again (a fresh reference,
+			// which has to set it first, would have its variables back)
+			in.parsed, in.lastText = false, ""
 		case which >= 400 && which < 500:
 			name := c05DefNames[(which-400)%len(c05DefNames)]
 			if which%3 == 1 {
@@ -556,10 +566,10 @@ func (in *instance) step(o Op, sets []VarSet, dry *stepStats) (res string, st st
 			}
 			sort.Strings(names)
 			for _, name := range names {
+				// only variables the calculator has (created automatically for the names of its expressions, now
+				// or earlier): whether it creates them is part of what is compared
 				if have := dv.FindByName(name); have != nil {
 					have.SetValue(vs[name].ToVariant())
-				} else {
-					dv.Add(variables.NewVariable(name, vs[name].ToVariant()))
 				}
 			}
 			v, err = in.calc.Evaluate()
@@ -730,6 +740,12 @@ func c05GenTask(r *Rand, kind string, faults bool, first, second int) TaskPlan {
 				o.Op = "pveval"
 			case 7:
 				o.Op = r.Pick([]string{"defeval", "defeval", "defreeval"})
+			case 9:
+				if i > 0 {
+					// the default variables are emptied (or lose one entry), then the calculator's own text is set again
+					tp.Ops = append(tp.Ops, Op{Op: "config", I: 500 + r.Intn(10)})
+					o.Op = r.Pick([]string{"defown", "defown", "defeval"})
+				}
 			case 8:
 				// edit the calculator's default function collection: replace (400..) or remove (450..) a standard function
 				tp.Ops = append(tp.Ops, Op{Op: "config", I: 400 + r.Intn(100)})
@@ -766,7 +782,7 @@ func c05GenTask(r *Rand, kind string, faults bool, first, second int) TaskPlan {
 		o.Set = r.Intn(2)
 		if faults && r.Bool(0.3) && o.Op != "strings" && o.Op != "streamstrings" {
 			o.F = c05Fault(r, kind, o.Op)
-			if (o.Op == "defeval" || o.Op == "defreeval") && o.F != nil && o.F.Kind != "op_error" {
+			if (o.Op == "defeval" || o.Op == "defreeval" || o.Op == "defown") && o.F != nil && o.F.Kind != "op_error" {
 				o.F = nil // the default collections have no failing function or missing variable to offer
 			}
 			if o.F != nil && strings.HasPrefix(o.F.Kind, "fn_") {
@@ -848,6 +864,13 @@ func (propC05) Exec(p *Plan, x *Ctx) *Outcome {
 					od := o
 					od.F = nil
 					_, r.dry = in.freshLike().step(od, tp.Sets, nil)
+				}
+				if o.Op == "defown" {
+					// the same, evaluated through the calculator's own default collections
+					if t, ok := in.ownText(); ok {
+						o.S = t
+					}
+					o.Op = "defeval"
 				}
 				if o.Op == "owntext" {
 					// the caller sets the text the instance itself reports again, e.g. c.SetExpression(c.Expression())
